@@ -6,6 +6,7 @@ import Swat4.Lemmas.RowInv
 import Swat4.Properties.C11
 import Swat4.Lemmas.TimedInv
 import Swat4.Lemmas.CleanRace
+import Swat4.Model.CleanerComponent
 /-!
 # C14 — Servers expire by the clock: fresh ones are never cleaned, stale ones are
 
@@ -988,5 +989,156 @@ theorem facts_config_wiring :
     (Facts.configWiring.filter fun r => configRows.contains r) = configRows ∧
     (Facts.configWiring.filter fun r => configRows.any fun c => c.1 == r.1 && c.2.1 == r.2.1 && c.2.2.1 == r.2.2.1 && c.2.2.2.1 == r.2.2.2.1) = configRows := by
   decide
+
+/-! ## the cleaner component: what the driver runs for a `cleaner` case (`Model/CleanerComponent.lean`)
+
+`CleanerComponent.pass` / `cleanerPasses` are the Model's definition of the component's behaviour (ticker, pass order,
+scan fault); `Drv/C14.lean: handleCleaner` runs `cleanerPasses` and evaluates `CleanerComponent.staleServer` /
+`staleInstance` on the implementation's dump.  The theorems below say that the model's own state satisfies that oracle
+— as corollaries of `clean_complete2` and `clean_instances_state`. -/
+
+theorem staleServer_false (c r u : Int) : CleanerComponent.staleServer c r u = false ↔ ¬ u < c - r := by
+  unfold CleanerComponent.staleServer CleanerComponent.cutoff; exact decide_eq_false_iff_not
+
+theorem staleInstance_false (c r u : Int) : CleanerComponent.staleInstance c r u = false ↔ ¬ u ≤ c - r := by
+  unfold CleanerComponent.staleInstance CleanerComponent.cutoff; exact decide_eq_false_iff_not
+
+open CleanerComponent in
+/-- **instances after any pass** (healthy or faulted): no stored instance is outdated for the pass
+(`staleInstance`: last written at or before `clock − retention`, the pass's clock), and every instance that was not
+outdated is stored unchanged.  No hypothesis: `clean_instances_state` needs none. -/
+theorem cleaner_pass_instances (ret iv : Int) (healthy : Bool) (s : USys) :
+    (∀ (id : Nat) (v : Addr × Int), (pass ret iv healthy s).abs.instances[id]? = some v →
+      staleInstance (pass ret iv healthy s).clock ret v.2 = false) ∧
+    ((pass ret iv healthy s).abs.servers =
+      (if healthy then ((cleanServers2 ret).run s.abs (s.clock + iv)).1 else s.abs).servers) := by
+  generalize ha : (if healthy then ((cleanServers2 ret).run s.abs (s.clock + iv)).1 else s.abs) = a1
+  have hp : (pass ret iv healthy s).abs = ((cleanInstances ret).run a1 (s.clock + iv)).1 := by
+    simp only [pass, ha]
+  have hc : (pass ret iv healthy s).clock = s.clock + iv := rfl
+  rw [hp, hc]
+  refine ⟨fun id v hv => ?_, (clean_instances_state a1 (s.clock + iv) ret 0).2.2.2.1⟩
+  obtain ⟨h1, h2, h3, _⟩ := clean_instances_state a1 (s.clock + iv) ret id
+  cases h0 : a1.instances[id]? with
+  | none => rw [h3 h0] at hv; cases hv
+  | some v0 =>
+    by_cases hle : v0.2 ≤ s.clock + iv - ret
+    · rw [h1 v0 h0 hle] at hv; cases hv
+    · rw [h2 v0 h0 (by omega)] at hv
+      cases hv
+      exact (staleInstance_false _ _ _).2 hle
+
+open CleanerComponent in
+/-- **`cleaner_healthy_pass_complete`: after a healthy pass nothing outdated remains** (the oracle of the `cleaner`
+cases, as a theorem about the Model's component).  One pass of the cleaner component on a store in which every row sits
+under its own key (`Keyed`) and no record's refresh time is after its write time (`RefLeUpd`; both are invariants of
+every use-case run: `refLeUpd_preserved`): the clock has advanced by the interval; afterwards
+(1) no stored server is `staleServer` for the pass — last written strictly before `clock − retention`, the model's exact
+scan bound (`clean_complete2`); (2) every server that was not outdated is stored unchanged (the pass removes ONLY
+outdated servers); (3) no stored instance is `staleInstance` — last written at or before `clock − retention`
+(`clean_instances_state`). -/
+theorem cleaner_healthy_pass_complete (ret iv : Int) (s : USys) (hk : Keyed s.abs) (hinv : RefLeUpd s.abs) :
+    (pass ret iv true s).clock = s.clock + iv ∧
+    (∀ (k : Nat) (row : SRow), (pass ret iv true s).abs.servers[k]? = some row →
+      staleServer (pass ret iv true s).clock ret row.updatedAt = false) ∧
+    (∀ (k : Nat) (row : SRow), s.abs.servers[k]? = some row → staleServer (pass ret iv true s).clock ret row.updatedAt = false →
+      (pass ret iv true s).abs.servers[k]? = some row) ∧
+    (∀ (id : Nat) (v : Addr × Int), (pass ret iv true s).abs.instances[id]? = some v →
+      staleInstance (pass ret iv true s).clock ret v.2 = false) := by
+  obtain ⟨hi, hs⟩ := cleaner_pass_instances ret iv true s
+  obtain ⟨c1, c2, c3, _, _⟩ := clean_complete2 s.abs (s.clock + iv) ret hk hinv
+  have hc : (pass ret iv true s).clock = s.clock + iv := rfl
+  simp only [if_true] at hs
+  refine ⟨hc, ?_, ?_, hi⟩
+  · intro k row hrow
+    rw [hs] at hrow
+    rw [hc, staleServer_false]
+    intro hlt
+    rcases c3 k with hn | he
+    · rw [hn] at hrow; cases hrow
+    · rw [he] at hrow
+      rw [c1 k row hrow hlt] at he
+      rw [← he] at hrow; cases hrow
+  · intro k row hrow hns
+    rw [hc, staleServer_false] at hns
+    rw [hs]
+    exact c2 k row hrow hns
+
+open CleanerComponent in
+/-- a faulted pass (the server cleaner's scan failed) leaves the registry as it was; the instance cleaner still ran -/
+theorem cleaner_faulted_pass (ret iv : Int) (s : USys) :
+    (pass ret iv false s).clock = s.clock + iv ∧ (pass ret iv false s).abs.servers = s.abs.servers ∧
+    (∀ (id : Nat) (v : Addr × Int), (pass ret iv false s).abs.instances[id]? = some v →
+      staleInstance (pass ret iv false s).clock ret v.2 = false) := by
+  obtain ⟨hi, hs⟩ := cleaner_pass_instances ret iv false s
+  exact ⟨rfl, by simpa using hs, hi⟩
+
+open CleanerComponent in
+/-- a pass keeps the invariant `RefInv` (rows under their keys, `refreshedAt ≤ updatedAt`, clock not behind any write) when
+the interval is not negative (the component's ticker: `iv > 0`) — from `refLeUpd_preserved` -/
+theorem cleaner_pass_refInv (ret iv : Int) (hiv : 0 ≤ iv) (healthy : Bool) (s : USys) (h : RefInv s.abs s.clock) :
+    RefInv (pass ret iv healthy s).abs (pass ret iv healthy s).clock := by
+  have h' : RefInv s.abs (s.clock + iv) := h.tick (by omega)
+  have h1 : RefInv (if healthy then ((cleanServers2 ret).run s.abs (s.clock + iv)).1 else s.abs) (s.clock + iv) := by
+    cases healthy
+    · exact h'
+    · exact ((refLeUpd_preserved s.abs (s.clock + iv) h').2.2.2.2.2.2.2.2.1 ret).1
+  exact ((refLeUpd_preserved _ (s.clock + iv) h1).2.2.2.2.2.2.2.2.2 ret).1
+
+open CleanerComponent in
+theorem cleanerPasses_refInv (ret iv : Int) (hiv : 0 ≤ iv) : ∀ (script : List Bool) (s : USys), RefInv s.abs s.clock →
+    RefInv (cleanerPasses ret iv script s).abs (cleanerPasses ret iv script s).clock
+  | [], _, h => h
+  | b :: rest, s, h => cleanerPasses_refInv ret iv hiv rest (pass ret iv b s) (cleaner_pass_refInv ret iv hiv b s h)
+
+open CleanerComponent in
+theorem cleanerPasses_append (ret iv : Int) (pre : List Bool) (last : Bool) (s : USys) :
+    cleanerPasses ret iv (pre ++ [last]) s = pass ret iv last (cleanerPasses ret iv pre s) := by
+  simp [cleanerPasses, List.foldl_append]
+
+open CleanerComponent in
+/-- **`cleaner_last_pass_complete`: the driver's oracle, of the Model's component over a whole script.**  The component run
+over any script of healthy / faulted passes (`cleanerPasses`) with a non-negative interval, from a state with `RefInv`:
+if the LAST pass is healthy no stored server is outdated at the final clock (`staleServer`), and after any last pass no
+stored instance is outdated (`staleInstance`) — exactly what `Drv/C14.lean: handleCleaner` requires of the
+implementation's final dump (`healthyLast → stale = []`, `staleIns = []`).  Earlier faulted passes do not matter: a
+healthy pass is complete on its own (`cleaner_healthy_pass_complete`), and every pass keeps the invariant it needs
+(`cleaner_pass_refInv`). -/
+theorem cleaner_last_pass_complete (ret iv : Int) (hiv : 0 ≤ iv) (pre : List Bool) (last : Bool) (s : USys)
+    (h : RefInv s.abs s.clock) :
+    (last = true → ∀ (k : Nat) (row : SRow), (cleanerPasses ret iv (pre ++ [last]) s).abs.servers[k]? = some row →
+      staleServer (cleanerPasses ret iv (pre ++ [last]) s).clock ret row.updatedAt = false) ∧
+    (∀ (id : Nat) (v : Addr × Int), (cleanerPasses ret iv (pre ++ [last]) s).abs.instances[id]? = some v →
+      staleInstance (cleanerPasses ret iv (pre ++ [last]) s).clock ret v.2 = false) := by
+  rw [cleanerPasses_append]
+  have hr := cleanerPasses_refInv ret iv hiv pre s h
+  refine ⟨fun hl => ?_, (cleaner_pass_instances ret iv last _).1⟩
+  subst hl
+  exact (cleaner_healthy_pass_complete ret iv _ hr.1 hr.2.1).2.1
+
+/-- non-vacuity: `W.state` at clock 10 (A written at 10) satisfies `RefInv`; with retention 50 and interval 100 a faulted pass
+keeps A (clock 110), the following healthy pass (clock 210, cutoff 160 > 10) removes it; with retention 500 A stays — the
+hypotheses of `cleaner_healthy_pass_complete` / `cleaner_last_pass_complete` hold and the conclusion is not vacuous -/
+example : RefInv (⟨W.state, 10, []⟩ : USys).abs (⟨W.state, 10, []⟩ : USys).clock ∧
+    (CleanerComponent.cleanerPasses 50 100 [false] ⟨W.state, 10, []⟩).abs.servers[W.A.key]? = some ⟨W.fresh, 10⟩ ∧
+    (CleanerComponent.cleanerPasses 50 100 [false, true] ⟨W.state, 10, []⟩).abs.servers[W.A.key]? = none ∧
+    (CleanerComponent.cleanerPasses 50 100 [false, true] ⟨W.state, 10, []⟩).clock = 210 ∧
+    (CleanerComponent.cleanerPasses 500 100 [false, true] ⟨W.state, 10, []⟩).abs.servers[W.A.key]? = some ⟨W.fresh, 10⟩ := by
+  refine ⟨W.state_refInv, ?_, ?_, rfl, ?_⟩
+  · rw [show [false] = [] ++ [false] from rfl, cleanerPasses_append, (cleaner_faulted_pass _ _ _).2.1]
+    exact W.state_at
+  · have h1 := cleaner_pass_refInv 50 100 (by omega) false ⟨W.state, 10, []⟩ W.state_refInv
+    have hold : (CleanerComponent.pass 50 100 false (⟨W.state, 10, []⟩ : USys)).abs.servers[W.A.key]? = some ⟨W.fresh, 10⟩ := by
+      rw [(cleaner_faulted_pass 50 100 ⟨W.state, 10, []⟩).2.1]; exact W.state_at
+    rw [show [false, true] = [false] ++ [true] from rfl, cleanerPasses_append,
+      show CleanerComponent.cleanerPasses 50 100 [false] ⟨W.state, 10, []⟩ = CleanerComponent.pass 50 100 false ⟨W.state, 10, []⟩ from rfl,
+      (cleaner_pass_instances 50 100 true _).2]
+    simp only [if_true]
+    exact (clean_complete2 _ _ 50 h1.1 h1.2.1).1 W.A.key _ hold (by decide)
+  · have h1 := cleaner_pass_refInv 500 100 (by omega) false ⟨W.state, 10, []⟩ W.state_refInv
+    have hold : (CleanerComponent.pass 500 100 false (⟨W.state, 10, []⟩ : USys)).abs.servers[W.A.key]? = some ⟨W.fresh, 10⟩ := by
+      rw [(cleaner_faulted_pass 500 100 ⟨W.state, 10, []⟩).2.1]; exact W.state_at
+    rw [show [false, true] = [false] ++ [true] from rfl, cleanerPasses_append]
+    exact (cleaner_healthy_pass_complete 500 100 _ h1.1 h1.2.1).2.2.1 W.A.key _ hold (by decide)
 
 end Swat4.C14
